@@ -568,7 +568,8 @@ class Ace(AceBase):
 
     def _shadow_of__srcport(self, other: Ace) -> bool:
         """Return True if self.srcport is in the shadow of the  other.srcport."""
-        if top := set(other.srcport.ports):
+        if other.srcport.operator:
+            top = set(other.srcport.ports)
             if bottom := set(self._srcport.ports):
                 diff = bottom.intersection(top)
                 return diff == bottom
@@ -577,7 +578,8 @@ class Ace(AceBase):
 
     def _shadow_of__dstport(self, other: Ace) -> bool:
         """Return True if self.dstport is in the shadow of the  other.dstport."""
-        if top := set(other.dstport.ports):
+        if other.dstport.operator:
+            top = set(other.dstport.ports)
             if bottom := set(self._dstport.ports):
                 diff = bottom.intersection(top)
                 return diff == bottom
